@@ -80,6 +80,9 @@ type Server struct {
 	// SubresourcesFirst: discovery lists "things/status" before "things" (the order of a
 	// group-version's resource list is not specified). Set before the first request.
 	SubresourcesFirst bool
+	// hiddenFromDiscovery: resources that discovery does not list (any more) although the
+	// server still serves them — a lost aggregated API / refresh race (HideFromDiscovery)
+	hiddenFromDiscovery map[resKey]bool
 }
 
 const (
